@@ -236,7 +236,7 @@ def CommitmentsEncodable : Prop :=
 theorem commitments_encode_fails : ¬ CommitmentsEncodable := by
   intro h
   -- `n` FRI roots `d` of 32 bytes each
-  have key : ∀ (n : Nat) (d : Bytes), d.length = 32 → 65535 ≤ 32 + n * 32 →
+  have key : ∀ (n : Nat) (d : Bytes), d.length = 32 → 65536 ≤ 32 + n * 32 →
       commitments.wpanic (commitmentsNew (byteDigest 32) [] d (List.replicate n d)) = true := by
     intro n d hd hn
     have hl := length_encMany (c := byteDigest 32) (L := 32) (List.replicate n d)
@@ -260,7 +260,7 @@ theorem commitments_encode_fails : ¬ CommitmentsEncodable := by
   rw [h1] at h2
   cases h2
 
-/-- the proved part: below 65535 bytes of digests the value round-trips (missing for the full statement: the
+/-- the proved part: up to 65535 bytes of digests the value round-trips (missing for the full statement: the
     constructor does not bound the number of digests) -/
 theorem commitments_roundtrip_partial : commitments.RT := commitments_RT
 
